@@ -363,6 +363,15 @@ def check(rep, proof):
         "tr_variation.py (attempt bounds, dispatch order, PMF item lists, crossover cut range) is trusted",
     ]
     if bad and not oracle_bad:
+        # an operation that RAISED where the model (the behaviour the theorems were proved about) yields an equation is a concrete
+        # failing input: the configuration is valid and no equation came back
+        for b in [b for b in bad if not isinstance(b, tuple) and ops[b].get("exc")][:4]:
+            mo = vlib.coq_eval_one(HEADER, "%s %s" % (RUNNER, pairs[b][0]))
+            if mo and mo[0] == 1:
+                oracle_bad.append((b, ["%s%s on a valid configuration (stack size %d) raised %s; no equation was produced"
+                                       % (ops[b]["kind"], " (%s)" % ops[b]["mkind"] if ops[b].get("mkind") else "", ops[b]["N"], ops[b]["exc"])]))
+                break
+    if bad and not oracle_bad:
         # the correspondence is broken: look harder for a concrete malformed child - long variation sequences (damage done to an
         # unused row shows once later variations bring it into use) biased towards the kinds of operation that disagree
         focus = sorted({ops[b].get("mkind") or ops[b]["kind"] for b in bad if not isinstance(b, tuple)})
